@@ -339,36 +339,44 @@ func (h *Host) RunModule(hash []byte, fn func(ctx sdk.Context) error) (res TxRes
 // SetParams models a passed governance proposal between blocks: it is written at the start of the next block
 // (the executor calls it right after BeginBlock so that it is part of that block's durable state).
 func (h *Host) SetParams(p *ParamsOp) {
+	// the way a passed parameter-change proposal does it: through the params subspace, key by key (not through the
+	// service keeper's own SetParams, which a keeper-level cache could observe)
 	ctx := h.Ctx()
-	k := h.app.ServiceKeeper
-	cur := k.GetParams(ctx)
+	ss := h.app.GetSubspace(types.ModuleName)
+	cur := h.app.ServiceKeeper.GetParams(ctx)
 	if p.ServiceFeeTax != "" {
 		d, err := sdk.NewDecFromStr(p.ServiceFeeTax)
 		must(err)
 		cur.ServiceFeeTax = d
+		ss.Set(ctx, types.KeyServiceFeeTax, d)
 	}
 	if p.SlashFraction != "" {
 		d, err := sdk.NewDecFromStr(p.SlashFraction)
 		must(err)
 		cur.SlashFraction = d
+		ss.Set(ctx, types.KeySlashFraction, d)
 	}
 	if p.MaxRequestTimeout > 0 {
 		cur.MaxRequestTimeout = p.MaxRequestTimeout
+		ss.Set(ctx, types.KeyMaxRequestTimeout, p.MaxRequestTimeout)
 	}
 	if p.ArbitrationNs > 0 {
 		cur.ArbitrationTimeLimit = time.Duration(p.ArbitrationNs)
+		ss.Set(ctx, types.KeyArbitrationTimeLimit, cur.ArbitrationTimeLimit)
 	}
 	if p.ComplaintNs > 0 {
 		cur.ComplaintRetrospect = time.Duration(p.ComplaintNs)
+		ss.Set(ctx, types.KeyComplaintRetrospect, cur.ComplaintRetrospect)
 	}
 	if p.MinDeposit > 0 {
 		cur.MinDeposit = sdk.NewCoins(sdk.NewCoin("stake", sdk.NewInt(p.MinDeposit)))
+		ss.Set(ctx, types.KeyMinDeposit, cur.MinDeposit)
 	}
 	if p.MinDepositMultiple > 0 {
 		cur.MinDepositMultiple = p.MinDepositMultiple
+		ss.Set(ctx, types.KeyMinDepositMultiple, p.MinDepositMultiple)
 	}
 	must(cur.Validate())
-	k.SetParams(ctx, cur)
 }
 
 // Query through the real ABCI Query entry point (committed state only).
